@@ -38,7 +38,8 @@ class C02(Prop):
             "returned or recorded up to the step landing on t must be identical (log, rewards, done, positions, NLV, "
             "track-record entries); a second twin perturbs only events stamped after t + latency and the trades of the "
             "following step must be identical. (b) tabular API (TradingEnvXY): rows of X, Y and the rate dated after t "
-            "are perturbed with transformer_end <= t (z-score / yeo-johnson / none, window 1..6, stride): "
+            "are perturbed with transformer_end <= t (z-score / yeo-johnson / none, window 1..6, stride), or - a quarter of "
+            "these cases - X only, with the caller's own sklearn instance fitted on rows <= t and no transformer_end: "
             "observations, rewards, done flags up to t must be identical. Non-trivial = the perturbation actually "
             "changed a later output (so the comparison is not vacuous); distinct = distinct cases")
     rule = rule + es.CONTEXT_RULE
@@ -66,7 +67,10 @@ class C02(Prop):
         return dict(kind="xy", seed=rng.randint(0, 10**9), n=rng.randint(30, 60), nx=rng.randint(1, 3), ny=rng.randint(1, 2),
                     window=rng.choice([1, 1, 2, 3, 6]), stride=rng.choice([None, None, 2]),
                     transformer=rng.choice(["z-score", "yeo-johnson", None]), delay=rng.choice([0, 1]),
-                    cut=rng.randint(12, 25), missing=rng.random() < 0.5, drop_x=rng.random() < 0.7)
+                    cut=rng.randint(12, 25), missing=rng.random() < 0.5, drop_x=rng.random() < 0.7,
+                    # the caller's own fitted sklearn instance instead of a name (and no transformer_end): fitted on rows
+                    # dated <= t, it must be used as it is
+                    prefit=rng.random() < 0.25)
 
     # ------------------------------------------------------------------ event API
     def perturbed(self, case, after):
@@ -174,12 +178,25 @@ class C02(Prop):
         Y2.loc[later] = Y2.loc[later] * rng.uniform(0.8, 1.25, size=(later.sum(), case["ny"]))
         rate2.loc[later] = rng.uniform(0, 0.05, size=later.sum())
         acts = rng.uniform(-0.5, 0.5, size=(n, case["ny"]))
+        if case.get("prefit"):
+            # only the feature table is perturbed: without transformer_end the reward scale is computed from the whole
+            # price table by design
+            Y2, rate2 = Y.copy(), rate.copy()
+            r.tags.add("prefitted-transformer-instance")
 
         def run(Xa, Ya, ra):
             with warnings.catch_warnings():
                 warnings.simplefilter("ignore")
-                env = TradingEnvXY(Xa, Ya, transformer=case["transformer"], transformer_end=cut, window=case["window"],
-                                   stride=case["stride"], steps_delay=case["delay"], rate=ra)
+                if case.get("prefit"):
+                    from sklearn.preprocessing import PowerTransformer, StandardScaler
+
+                    inst = PowerTransformer("yeo-johnson") if case["transformer"] == "yeo-johnson" else StandardScaler()
+                    inst.fit(Xa.loc[:cut])
+                    env = TradingEnvXY(Xa, Ya, transformer=inst, window=case["window"],
+                                       stride=case["stride"], steps_delay=case["delay"], rate=ra)
+                else:
+                    env = TradingEnvXY(Xa, Ya, transformer=case["transformer"], transformer_end=cut, window=case["window"],
+                                       stride=case["stride"], steps_delay=case["delay"], rate=ra)
                 out = []
                 o = env.reset()
                 out.append((us(env.now()), o.tobytes(), None, None))
